@@ -9,7 +9,7 @@ from harness.impl import base
 from harness.impl.models import PosCoded
 from tangermeme.ism import saturation_mutagenesis
 
-KEYS = ("x", "A", "args", "start", "end", "bs", "out", "T", "tlo", "thi", "hyp", "raw")
+KEYS = ("x", "A", "args", "start", "end", "bs", "out", "T", "U", "tlo", "thi", "hyp", "raw")
 
 
 def ints(t, scale=1.0):
@@ -27,6 +27,7 @@ def run_call(c, variant):
     x = base.encode_batch(c["x"], A, torch.float64)
     args = None if not c["args"] else (torch.tensor(c["args"], dtype=torch.float64),)
     model = PosCoded(c["T"], c["out"])
+    model.U = c.get("U", 1)
     if c["tlo"] == -1:
         target = None
     elif c["thi"] - c["tlo"] == 1 and variant % 2 == 0:
@@ -59,7 +60,7 @@ def run_call(c, variant):
             ev["valid"] = bool(ok)
         else:
             nt = c["T"] if c["tlo"] == -1 else c["thi"] - c["tlo"]
-            a = ints(r, scale=A * nt) if r.ndim == 3 else None
+            a = ints(r, scale=A * nt * c.get("U", 1)) if r.ndim == 3 else None
             if a is None:
                 ev["valid"] = False
             else:
@@ -87,7 +88,8 @@ def gen_call(rng):
     if not raw and rng.random() < 0.7:
         tlo = rng.randrange(T); thi = rng.randint(tlo + 1, T)
     return dict(x=x, A=A, args=[rng.randint(-9, 9) for _ in range(n)] if rng.random() < 0.5 else [], start=start, end=end,
-                bs=rng.choice([1, 2, 3, 7, 32, A * L + 1]), out=out, T=T, tlo=tlo, thi=thi, hyp=rng.random() < 0.5, raw=raw)
+                bs=rng.choice([1, 2, 3, 7, 32, A * L + 1]), out=out, T=T, U=1 if raw else rng.choice([1, 2]), tlo=tlo, thi=thi,
+                hyp=rng.random() < 0.5, raw=raw)
 
 
 def verdict(ev, exp):
